@@ -193,6 +193,7 @@ func init() {
 		ID:   "C01",
 		Rule: "complete product of stream x function x wait bit, all session ids, the system-byte lane alphabet, every item tree of the scope, the size-boundary axis for all 14 formats (top-level and nested), each through 4 construction routes; each message is encoded, decoded by the real decoder, compared field by field and re-encoded, and the decoder's output is fed back once more; non-trivial = a non-empty encoding was decoded and compared",
 		MemLimitGiB: 12,
+		WatchdogSec: 3600, // items of 16,777,215 elements legitimately take minutes; these checks have no hang oracle
 		Build: func(tier string, seed int64) []h.Space {
 			var sp []h.Space
 			item := ref.List(ref.Uints(ref.U2, 0x1234), ref.Ascii("x"))
